@@ -265,6 +265,7 @@ func cmdCheck(args []string) int {
 	assumed := map[string]bool{}
 	effFree := map[string]bool{}
 	havocs := map[string]bool{}
+	inlined := map[string]bool{}
 	trustedFns := []string{}
 	for _, con := range sortedContracts(eng.contracts) {
 		if con.Extern {
@@ -315,6 +316,9 @@ func cmdCheck(args []string) int {
 		}
 		for n := range enc.havocCalls {
 			havocs[shortFn(fn)+" -> "+n] = true
+		}
+		for n := range enc.autoInlined {
+			inlined[n] = true
 		}
 	}
 	// lemmas of contract files (closed formulas)
@@ -530,6 +534,7 @@ func cmdCheck(args []string) int {
 			"trusted_base":             []string{"go/packages + go/ssa (x/tools v0.29.0)", "gowp SSA->SMT encoding (Int with explicit wraparound, per-field heap arrays)", "z3 4.8.12, z3 5.1.0, cvc5 1.0", "assumed contracts listed under assumptions"},
 			"samples":                  samples,
 			"functions_under_contract": funcs,
+			"callees_encoded_inline":   sortedKeys(inlined), // small loop-free repository functions without a contract: body used instead of a havoc
 			"by_solver":                bySolver,
 			"solver_time_s":            round3(solverTime),
 			"load_s":                   round3(loadS),
